@@ -36,6 +36,23 @@ Theorem C17_all_instants : forall name raw, In (name, raw) bundled ->
 Proof. exact bundled_all_instants. Qed.
 Print Assumptions C17_all_instants.
 
+(* The finite check is a decision procedure for ANY tariff file (file_total raw evaluates the 366 x 7 cells of
+   the file's schedules): if it passes, the lookup is total and unambiguous at every instant of every year; if it
+   fails, there is a real instant (midnight of a date in 2000..2027) at which get_tariff and get_demand_charge
+   raise.  C17_exactly_one / C17_all_instants are the instances for the bundled files. *)
+Theorem C17_check_sound_and_complete : forall raw,
+  (file_total raw = true ->
+     exists TS, build raw = Ok TS /\
+     forall t : Z, exists s p,
+       valid_schedules TS (t_month t) (t_day t) (t_weekday t) = [s] /\
+       get_tariff TS t = Ok p /\
+       latest_breakpoint_rate (s_tariffs s) (target_hour t) p /\
+       get_demand_charge TS t = Ok (s_demand s)) /\
+  (forall TS, build raw = Ok TS -> file_total raw = false ->
+     exists t e, get_tariff TS t = Err e /\ get_demand_charge TS t = Err e).
+Proof. exact (fun raw => conj (file_total_all_instants raw) (file_total_complete raw)). Qed.
+Print Assumptions C17_check_sound_and_complete.
+
 (* the datetime fields used above are those of a real calendar date and time of day *)
 Theorem C17_instant_fields : forall t : Z,
   (1 <= t_month t <= 12)%Z /\ (1 <= t_day t <= max_days_in_month (t_month t))%Z /\
